@@ -7,6 +7,7 @@ use aelys_sema::{
 
 pub struct LocalConstantPropagator {
     scopes: ScopeStack,
+    binders: crate::passes::binders::BinderCounts,
     folder: ConstantFolder,
     stats: OptimizationStats,
 }
@@ -15,6 +16,7 @@ impl LocalConstantPropagator {
     pub fn new() -> Self {
         Self {
             scopes: ScopeStack::new(),
+            binders: Default::default(),
             folder: ConstantFolder::new(),
             stats: OptimizationStats::new(),
         }
@@ -42,8 +44,14 @@ impl LocalConstantPropagator {
                 self.propagate_expr(initializer);
                 self.folder.optimize_expr(initializer);
 
-                if !*mutable && Self::is_simple_constant(initializer) {
+                // a top-level let is a global: functions see its latest binding, so it is a
+                // constant only if nothing else in the program binds the same name
+                let rebindable_global = self.scopes.depth() == 1
+                    && !crate::passes::binders::is_bound_once(&self.binders, name);
+                if !*mutable && Self::is_simple_constant(initializer) && !rebindable_global {
                     self.scopes.insert(name.clone(), initializer.clone());
+                } else {
+                    self.scopes.shadow(name.clone());
                 }
             }
 
@@ -88,6 +96,7 @@ impl LocalConstantPropagator {
             }
 
             TypedStmtKind::For {
+                iterator,
                 start,
                 end,
                 step,
@@ -105,11 +114,17 @@ impl LocalConstantPropagator {
                     self.scopes.invalidate(name);
                 }
                 self.scopes.push();
+                self.scopes.shadow(iterator.clone());
                 self.propagate_stmt(body);
                 self.scopes.pop();
             }
 
-            TypedStmtKind::ForEach { iterable, body, .. } => {
+            TypedStmtKind::ForEach {
+                iterator,
+                iterable,
+                body,
+                ..
+            } => {
                 self.propagate_expr(iterable);
                 let mut assigned = Vec::new();
                 Self::collect_assigned_vars(body, &mut assigned);
@@ -117,6 +132,7 @@ impl LocalConstantPropagator {
                     self.scopes.invalidate(name);
                 }
                 self.scopes.push();
+                self.scopes.shadow(iterator.clone());
                 self.propagate_stmt(body);
                 self.scopes.pop();
             }
@@ -259,7 +275,11 @@ impl LocalConstantPropagator {
     }
 
     fn propagate_function(&mut self, func: &mut TypedFunction) {
+        self.scopes.shadow(func.name.clone());
         self.scopes.push();
+        for param in &func.params {
+            self.scopes.shadow(param.name.clone());
+        }
         for stmt in func.body.iter_mut() {
             self.propagate_stmt(stmt);
         }
@@ -324,8 +344,11 @@ impl LocalConstantPropagator {
                 self.propagate_expr(inner);
             }
 
-            TypedExprKind::LambdaInner { body, .. } => {
+            TypedExprKind::LambdaInner { params, body, .. } => {
                 self.scopes.push();
+                for param in params.iter() {
+                    self.scopes.shadow(param.name.clone());
+                }
                 for stmt in body.iter_mut() {
                     self.propagate_stmt(stmt);
                 }
@@ -414,6 +437,7 @@ impl OptimizationPass for LocalConstantPropagator {
 
     fn run(&mut self, program: &mut TypedProgram) -> OptimizationStats {
         self.scopes = ScopeStack::new();
+        self.binders = crate::passes::binders::count_binders(&program.stmts);
         self.stats = OptimizationStats::new();
 
         for stmt in program.stmts.iter_mut() {
